@@ -30,6 +30,15 @@ Theorem C09_metropolis_accept_rule :
 Proof. intros target expf. exact (accept_iff target expf []). Qed.
 Print Assumptions C09_metropolis_accept_rule.
 
+(** With a ratio and a uniform draw that are not nan the coded test is [u <= ratio]: a draw
+    EQUAL to the ratio accepts (binary64, from the library specification of [<?] and [<=?]). *)
+Theorem C09_metropolis_accept_le :
+  forall (target : vec -> float) (expf : float -> float) x y u,
+    is_nan (expf (target y - target x)%float) = false -> is_nan u = false ->
+    accept target expf x y u = is_finite (target y) && (u <=? expf (target y - target x))%float.
+Proof. exact accept_le. Qed.
+Print Assumptions C09_metropolis_accept_le.
+
 (** Each state is the previous state or previous + sigma * z, the latter exactly when accepted. *)
 Theorem C09_metropolis_step_cases :
   forall target expf sigma x z u,
